@@ -161,6 +161,7 @@ def handle : Handler
           outList id p.1 ++ "|" ++ outList (fun (kv : Str × Str) => hexStr kv.1 ++ "=" ++ hexStr kv.2) (dictItems p.2)
             ++ "|" ++ outList hexStr (dictKeys p.2) ++ "|" ++ outList hexStr (dictValues p.2)) r
       | _, _ => badArgs)
+  | "pre.encutf8", args => str1 (fun s => hex (encodeUtf8 s)) args
   | "pre.enclatin1", args => str1 (fun s => outExc hex (encodeLatin1 s)) args
   | "pre.utf8latin1", args => str1 (fun s => hexStr (utf8ThenLatin1 s)) args
   | "pre.decutf8replace", [b] => some (match unhex b with | some b => hexStr (decodeUtf8Replace b) | none => badArgs)
@@ -172,6 +173,16 @@ def handle : Handler
     some (match strList l with
       | some l => outList (fun (p : Int × Str) => toString p.1 ++ ":" ++ hexStr p.2) (enumerate l)
       | none => badArgs)
+  | "pre.unpack", [l, n] =>
+    some (match strList l, intArg n with
+      | some l, some n =>
+        if n == 2 then outExc (fun (p : Str × Str) => hexStr p.1 ++ "|" ++ hexStr p.2) (unpack2 l)
+        else outExc out3 (unpack3 l)
+      | _, _ => badArgs)
+  | "pre.bytearray", [n, b] =>
+    some (match intArg n, unhex b with
+      | some n, some b => hex (bytesExtend (bytearrayZeros n) b)
+      | _, _ => badArgs)
   | "pre.plainint", args => str1 (fun s => outExc outInt (plainInt s)) args
   | "pre.plainintre", args => str1 (fun s => outBool (plainIntReFullmatch s).isSome) args
   | "pre.pyint", args => str1 (fun s => outExc outInt (pyIntPlain s)) args
